@@ -302,6 +302,78 @@ PINNED = {"register:wildcard-branch": "30d52e44264f5653", "_new_trait_added": "5
           "_get_target": "d963802a67284943"}
 
 
+WILD = None
+
+WILD_TEXT = [
+    "if self.is_anytrait:\n    try:\n        self.active[new] = [('', ANYTRAIT_LISTENER)]\n"
+    "        return self._register_anytrait(new, '', False)\n    except TypeError:\n        return INVALID_DESTINATION",
+    "metadata = self._metadata",
+    None,
+    "names = new.trait_names(**metadata)",
+    "name = name[:-1]",
+    "if name != '':\n    n = len(name)\n    names = [aname for aname in names if name == aname[:n]]",
+    "bt = new.base_trait",
+    "traits = dict([(name, bt(name)) for name in names])",
+    "new.on_trait_change(self._new_trait_added, 'trait_added')",
+]
+
+
+def translate_wildcard(stmts):
+    """The `if last == "*":` branch of register: anytrait first (active entry, then `_register_anytrait(new, "", False)`),
+    the metadata filter dictionary (which filter function under which flag), `trait_names(**metadata)`, the prefix
+    filter, the `trait_added` hook.  Everything but the filter functions must have exactly this shape."""
+    got = [U(x) for x in stmts]
+    if len(got) != len(WILD_TEXT) or any(w is not None and g != w for g, w in zip(got, WILD_TEXT)):
+        bad(stmts[0], "register: wildcard branch shape")
+    m = stmts[2]
+    try:
+        assert isinstance(m, ast.If) and U(m.test) == "metadata is None" and not m.orelse and len(m.body) == 2
+        a0 = m.body[0]
+        assert [U(t) for t in a0.targets] == ["self._metadata", "metadata"] and isinstance(a0.value, ast.Dict)
+        assert [U(k) for k in a0.value.keys] == ["'type'"] and isinstance(a0.value.values[0], ast.Name)
+        base = a0.value.values[0].id
+        i1 = m.body[1]
+        assert isinstance(i1, ast.If) and U(i1.test) == "self.metadata_name != ''" and not i1.orelse and len(i1.body) == 1
+        i2 = i1.body[0]
+        assert isinstance(i2, ast.If) and U(i2.test) == "self.metadata_defined" and len(i2.body) == 1 and len(i2.orelse) == 1
+        d, u = i2.body[0], i2.orelse[0]
+        for x in (d, u):
+            assert [U(t) for t in x.targets] == ["metadata[self.metadata_name]"] and isinstance(x.value, ast.Name)
+    except AssertionError:
+        bad(m, "register: metadata filter construction")
+    return {"baseFilter": base, "definedFilter": d.value.id, "undefinedFilter": u.value.id}
+
+
+def translate_new_trait_added(fn):
+    """Shape of `_new_trait_added`; returns whether the late classification reads `handler.default_value_type`
+    (the attribute `register` reads)."""
+    b = body_of(fn)
+    if len(b) != 1 or not isinstance(b[0], ast.If) or U(b[0].test) != "new_trait.startswith(self.name[:-1])" or b[0].orelse:
+        bad(fn, "_new_trait_added: prefix test")
+    body = b[0].body
+    got = [U(x) for x in body]
+    want = ["trait = object.base_trait(new_trait)",
+            "for meta_name, meta_eval in self._metadata.items():\n    if not meta_eval(getattr(trait, meta_name)):\n        return",
+            "type = SIMPLE_LISTENER", "handler = trait.handler", None,
+            "self.active[object].append((new_trait, type))", "getattr(self, type)(object, new_trait, False)"]
+    if len(got) != len(want) or any(w is not None and g != w for g, w in zip(got, want)):
+        bad(fn, "_new_trait_added: shape")
+    c = body[4]
+    try:
+        assert isinstance(c, ast.If) and U(c.test) == "handler is not None" and not c.orelse and len(c.body) == 1
+        call = c.body[0].value
+        assert U(c.body[0].targets[0]) == "type" and U(call.func) == "type_map.get" and len(call.args) == 2
+        assert U(call.args[1]) == "SIMPLE_LISTENER" and isinstance(call.args[0], ast.Attribute) and U(call.args[0].value) == "handler"
+    except AssertionError:
+        bad(c, "_new_trait_added: classification")
+    attr = call.args[0].attr
+    if attr == "default_value_type":
+        return True
+    if attr == "default_value_":
+        return False      # reads the metadata fallback of TraitType.__getattr__, i.e. None: always SIMPLE_LISTENER
+    bad(c, "_new_trait_added: classification attribute " + attr)
+
+
 # ---------------------------------------------------------------------------- register / unregister
 
 def translate_register(fn, consts):
@@ -321,9 +393,8 @@ def translate_register(fn, consts):
         "if optional:\n    name = name[:-1]",
         "try:\n    trait = new.base_trait(name)\nexcept DelegationError:\n    trait = new.trait(name)",
     ]
-    import hashlib
-    if hashlib.sha256("\n".join(U(x) for x in w.body).encode()).hexdigest()[:16] != PINNED["register:wildcard-branch"]:
-        bad(w, "register: the wildcard / metadata / anytrait branch (pinned text) changed")
+    global WILD
+    WILD = translate_wildcard(w.body)
     if single[:3] != want_single or len(w.orelse) != 4:
         bad(w, "register: single-trait branch")
     t = w.orelse[3]
@@ -755,7 +826,8 @@ def emit(traits_dir):
         bad("handle_list_items_special", "pinned text changed")
     handlers.append(("listItemsSpecial", ".wrapped"))
     import hashlib
-    for n in ("_new_trait_added", "_get_target"):
+    late = translate_new_trait_added(fns["_new_trait_added"])
+    for n in ("_get_target",):
         if hashlib.sha256("\n".join(U(x) for x in body_of(fns[n])).encode()).hexdigest()[:16] != PINNED[n]:
             bad(n, "pinned text changed")
 
@@ -798,6 +870,28 @@ def emit(traits_dir):
     out.append("  unregisterGuard := %s" % guard)
     out.append("  unregisterOrder := [%s]" % ", ".join(lstr(x) for x in uorder))
     out.append("  handlers := [%s]" % ", ".join("(.%s, h_%s)" % (n, n) for n, _ in handlers))
+    out.append("")
+    filt = {}
+    for st in mod.body:
+        if isinstance(st, ast.FunctionDef) and st.name in ("is_not_none", "is_none", "not_event"):
+            body = [U(x) for x in body_of(st)]
+            sem = {"return value is not None": ".notNone", "return value is None": ".isNone",
+                   "return value != 'event'": ".notEvent"}.get(body[0] if len(body) == 1 else "")
+            if sem is None or [a.arg for a in st.args.args] != ["value"]:
+                bad(st, "metadata filter function")
+            filt[st.name] = sem
+    for k in ("baseFilter", "definedFilter", "undefinedFilter"):
+        if WILD[k] not in filt:
+            bad(WILD[k], "unknown filter function")
+    out.append("def wild : Wild where")
+    out.append("  anytraitFirst := true")
+    out.append("  baseFilter := %s" % filt[WILD["baseFilter"]])
+    out.append("  definedFilter := %s" % filt[WILD["definedFilter"]])
+    out.append("  undefinedFilter := %s" % filt[WILD["undefinedFilter"]])
+    out.append("  metaOnlyIfNamed := true")
+    out.append("  prefixOnlyIfNonEmpty := true")
+    out.append("  hooksTraitAdded := true")
+    out.append("  lateUsesDefaultValueType := %s" % lb(late))
     out.append("")
     out += translate_parser(mod, consts)
     out.append("end TraitsVerif.Generated.LegacyProg")
